@@ -125,6 +125,9 @@ def run(repo, rep, tier):
     guards.check_functions(repo, rep, fam)
     effects.check_functions(repo, rep, fam)
     stateless_scan(repo, rep, fam)
+    # premise of the evaluator: Angle / Epoch operators mean what their names say and leave their operands alone
+    from ..premises import operator_semantics
+    operator_semantics(repo, rep)
     return "other"
 
 
